@@ -5,11 +5,13 @@ the definitions the theorems in S3V/Props/* are about.
 -/
 import S3V.Driver.Plan
 import S3V.Driver.Sema
+import S3V.Driver.Defer
 
 namespace S3V.Driver
 
 structure DState where
   sema : SemaD := {}
+  defer : S3V.Defer.DQ Nat := S3V.Defer.DQ.init
 
 def DState.init : DState := {}
 
@@ -18,6 +20,7 @@ def step (st : DState) (line : String) : DState × String :=
   match toks with
   | ["reset"] => (DState.init, "ok")
   | "plan" :: rest => (st, planStep rest)
+  | "defer" :: rest => let r := deferStep st.defer rest; ({ st with defer := r.1 }, r.2)
   | "sema" :: _ | "tsem" :: _ | "cci" :: _ | "bsema" :: _ =>
     let r := semaStep st.sema toks; ({ st with sema := r.1 }, r.2)
   | _ => (st, "bad-op")
